@@ -6,7 +6,8 @@ from __future__ import annotations
 from vp_common import Atom, Ctx, line, run_driver
 
 PROP = 'C15'
-RULE = ('update streams of (item, weight 0..50) over ints and strings; depth 1..8, width mostly 1..8 (forced collisions) '
+RULE = ('update streams of (item, weight 0..50) over ints, strings and mixed int+string item sets (strings spelling the ints, NUL / '
+        'space suffixes), fed by add or (40%) by one batch_add; depth 1..8, width mostly 1..8 (forced collisions) '
         'and up to 2^15; fresh numpy seeds; matrix + all queries compared after random prefixes. Counter: item streams '
         'with bounds 0..10. Non-trivial = stream with >=2 distinct items that collide in at least one row (cms) / '
         'stream that reaches the bound (counter); distinct = distinct (shape, stream).')
@@ -18,19 +19,28 @@ ASSUMPTIONS = ['numba hash(x) and the seed arithmetic inside cms_hash are extern
 def gen_cms(rng, thorough):
     depth = rng.randint(1, 8)
     width = rng.choice([1, 2, 3, 4, 5, 8, 8, 16, 64, 1024, 2 ** 15])
-    kind = rng.choice(['int', 'str', 'mixed-int-neg'])
+    kind = rng.choice(['int', 'str', 'mixed-int-neg', 'int+str', 'int+str'])
     nitems = rng.randint(1, 12)
     if kind == 'int':
         items = rng.sample(range(0, 1000), nitems)
     elif kind == 'mixed-int-neg':
         items = rng.sample(range(-50, 50), nitems)
+    elif kind == 'int+str':
+        # one stream over ints AND strings (the property's item domain), with strings that spell the ints of the same stream:
+        # 1 and '1' are different items and must keep separate weights
+        ints = rng.sample(range(-5, 30), max(1, nitems // 2))
+        strs = [str(i) for i in ints[:rng.randint(0, len(ints))]] + rng.sample(['a', '', 'é', '1', '-1', '1.0', 'x' * 20, 'a\x00', ' 1'], rng.randint(1, 4))
+        items = list(dict.fromkeys(ints + strs))          # 1 == True-style aliasing cannot occur: ints and strs never compare equal
+        rng.shuffle(items)
     else:
-        alphabet = ['a', 'b', 'ab', 'ba', '', 'é', '1', '11', 'x' * 20, 'label', 'ž']
+        alphabet = ['a', 'b', 'ab', 'ba', '', 'é', '1', '11', 'x' * 20, 'label', 'ž', 'a\x00', 'a ']
         items = rng.sample(alphabet, min(nitems, len(alphabet)))
     n = rng.choice([0, 1, 2, 5, 20, 60] + ([300] if thorough else []))
-    ops = [(rng.randrange(len(items)), rng.choice([0, 1, 1, 1, 2, 7, 50])) for _ in range(n)]
+    batch = rng.random() < 0.4
+    d0 = rng.choice([1, 1, 1, 2, 7, 0])
+    ops = [(rng.randrange(len(items)), d0 if batch else rng.choice([0, 1, 1, 1, 2, 7, 50])) for _ in range(n)]
     return {'t': 'cms', 'depth': depth, 'width': width, 'items': items, 'ops': ops, 'npseed': rng.randrange(2 ** 31),
-            'batch': rng.random() < 0.3}
+            'batch': batch, 'kind': kind}
 
 
 def gen_ctr(rng, thorough):
@@ -82,6 +92,8 @@ def evaluate(ctx: Ctx, cases, oracle_only=False):
         ctx.evaluations += 1
         ctx.count('type:' + c['t'])
         if c['t'] == 'cms':
+            ctx.count('items:' + c.get('kind', 'corpus'))
+            ctx.count('path:' + ('batch_add' if c['batch'] and c['ops'] else 'add'))
             ctx.count('width:%d' % c['width'])
             ctx.count('depth:%d' % c['depth'])
             used = {i for i, _ in c['ops']}
